@@ -1,11 +1,268 @@
-/- C19 — executable model (stub; filled in by the property's owner). -/
-import Mahotas.Model.Border
-import Mahotas.Model.DType
+/-
+C19 — texture / shape descriptors: `cooccurence`, `haralick` (texture.py, _texture.cpp),
+LBP code mapping and histogram (lbp.py, _lbp.cpp), `moments` (moments.py), SURF integral image
+(_surf.cpp `integral`). Direction tables come from `Generated/Tables.lean`.
+-/
+import Mahotas.Model.Basic
+import Mahotas.Generated.Tables
 namespace Mahotas.C19
-open Mahotas
+open Mahotas Mahotas.Generated
+
+/-! ## co-occurrence -/
+
+/-- all positions of a box in C scan order (structural recursion: easy to reason about) -/
+def boxPos : List Nat → List (List Int)
+  | [] => [[]]
+  | d :: ds => (List.range d).flatMap (fun (i : Nat) => (boxPos ds).map (fun t => (i : Int) :: t))
+
+/-- **specification**: `C[a][b] = #{p | p inside, p+d inside, f p = a, f (p+d) = b}` -/
+def coocCount (s : List Nat) (f : List Int → Int) (d : List Int) (a b : Int) : Nat :=
+  (boxPos s).countP (fun p => inside s (addPos p d) && (f p == a && f (addPos p d) == b))
+
+/-- symmetric variant: `C + Cᵀ` (the loop at the end of `py_cooccurent`) -/
+def coocSym (s : List Nat) (f : List Int → Int) (d : List Int) (a b : Int) : Nat :=
+  coocCount s f d a b + coocCount s f d b a
+
+/-- **model** of `_texture.cpp: cooccurence<T>`: scan the image in C order; wherever the one-hot
+    neighbourhood element lies inside the image (`ExtendIgnore`), increment `res[val][val2]`.
+    `m` = side of the result matrix; values are assumed in `[0,m)` (the C++ throws on negatives,
+    and writes out of bounds otherwise). -/
+def coocModel (m : Nat) (im : Img Int) (d : List Int) : Array Nat :=
+  (boxPos im.shape).foldl (fun acc p =>
+      let q := addPos p d
+      if inside im.shape q then
+        let i := (im.getD p 0).toNat * m + (im.getD q 0).toNat
+        acc.modify i (· + 1)
+      else acc)
+    (Array.replicate (m * m) 0)
+
+/-- the symmetric fold: `total = C[y][x] + C[x][y]` written to both -/
+def symFold (m : Nat) (c : Array Nat) : Array Nat :=
+  ((List.range (m * m)).map fun k => c.getD k 0 + c.getD ((k % m) * m + k / m) 0).toArray
+
+def coocSpecMat (m : Nat) (im : Img Int) (d : List Int) (sym : Bool) : List Nat :=
+  (List.range (m * m)).map fun k =>
+    let a : Int := (k / m : Nat); let b : Int := (k % m : Nat)
+    if sym then coocSym im.shape (fun p => im.getD p 0) d a b
+    else coocCount im.shape (fun p => im.getD p 0) d a b
+
+/-- direction `dir` of the table for this rank scaled by `distance` -/
+def direction (ndim dir : Nat) (dist : Int) : List Int :=
+  ((if ndim == 2 then deltas2d else deltas3d).getD dir []).map (· * dist)
+
+/-- 180° rotation of the index space: `p ↦ (shape − 1) − p` -/
+def revPos : List Nat → List Int → List Int
+  | d :: ds, p :: ps => ((d : Int) - 1 - p) :: revPos ds ps
+  | _, _ => []
+
+/-- swap of the first two axes (2-D: transposition) -/
+def swap01 {α : Type} : List α → List α
+  | a :: b :: t => b :: a :: t
+  | l => l
+
+/-! ## Haralick features: the textbook functions of the normalised matrix (Float) -/
+
+def fsum (xs : List Float) : Float := xs.foldl (· + ·) 0.0
+def entropy (xs : List Float) : Float :=
+  -(fsum (xs.map fun p => if p == 0.0 then 0.0 else p * Float.log2 p))
+
+/-- features 1..13 (Haralick 1973, with the corrected sum variance `Σ (k − f6)² p_{x+y}(k)`;
+    f10 = variance of the *values* of `p_{x−y}` (mahotas' default interpretation)).
+    `c` = integer matrix (row-major, `m×m`, already symmetrised / zero-stripped). -/
+def haralick13 (m : Nat) (c : List Nat) : List Float :=
+  let T := Float.ofNat (c.foldl (· + ·) 0)
+  let p := (c.map fun v => Float.ofNat v / T).toArray
+  let idx := List.range m
+  let P := fun (i j : Nat) => p.getD (i * m + j) 0.0
+  let fl := fun (n : Nat) => Float.ofNat n
+  let px := idx.map fun j => fsum (idx.map fun i => P i j)      -- p.sum(0)
+  let py := idx.map fun i => fsum (idx.map fun j => P i j)      -- p.sum(1)
+  let ux := fsum (idx.map fun k => px.getD k 0.0 * fl k)
+  let uy := fsum (idx.map fun k => py.getD k 0.0 * fl k)
+  let vx := fsum (idx.map fun k => px.getD k 0.0 * fl (k * k)) - ux * ux
+  let vy := fsum (idx.map fun k => py.getD k 0.0 * fl (k * k)) - uy * uy
+  let pplus := (List.range (2 * m)).map fun k =>
+    fsum (idx.map fun i => if i ≤ k ∧ k - i < m then P i (k - i) else 0.0)
+  let pminus := idx.map fun k =>
+    fsum (idx.flatMap fun i => idx.filterMap fun j =>
+      if (if i ≥ j then i - j else j - i) == k then some (P i j) else none)
+  let all := idx.flatMap fun i => idx.map fun j => (i, j)
+  let f1 := fsum (all.map fun (i, j) => P i j * P i j)
+  let f2 := fsum (idx.map fun k => fl (k * k) * pminus.getD k 0.0)
+  let f3 := (fsum (all.map fun (i, j) => fl (i * j) * P i j) - ux * uy) / (Float.sqrt vx * Float.sqrt vy)
+  let f4 := vx
+  let f5 := fsum (all.map fun (i, j) =>
+    let dd := (if i ≥ j then i - j else j - i); P i j / (1.0 + fl (dd * dd)))
+  let f6 := fsum ((List.range (2 * m)).map fun k => fl k * pplus.getD k 0.0)
+  let f7 := fsum ((List.range (2 * m)).map fun k => (fl k - f6) * (fl k - f6) * pplus.getD k 0.0)
+  let f8 := entropy pplus
+  let f9 := entropy p.toList
+  let mean := fsum pminus / fl m
+  let f10 := fsum (pminus.map fun v => (v - mean) * (v - mean)) / fl m
+  let f11 := entropy pminus
+  let hx := entropy px
+  let hy := entropy py
+  let hxy1 := -(fsum (all.map fun (i, j) =>
+    let q := px.getD j 0.0 * py.getD i 0.0
+    if P i j == 0.0 then 0.0 else P i j * Float.log2 q))
+  let hxy2 := -(fsum (all.map fun (i, j) =>
+    let q := px.getD j 0.0 * py.getD i 0.0
+    if q == 0.0 then 0.0 else q * Float.log2 q))
+  let f12 := (f9 - hxy1) / (if hx < hy then hy else hx)
+  let e := 1.0 - Float.exp (-2.0 * (hxy2 - f9))
+  let f13 := Float.sqrt (if e < 0.0 then 0.0 else e)
+  [f1, f2, f3, f4, f5, f6, f7, f8, f9, f10, f11, f12, f13, vx, vy, hx, hy]
+
+/-- `ignore_zeros`: first row and column cleared -/
+def stripZeros (m : Nat) (c : List Nat) : List Nat :=
+  (List.range (m * m)).map fun k => if k / m == 0 || k % m == 0 then 0 else c.getD k 0
+
+/-! ## LBP code mapping (`_lbp.cpp`) -/
+
+/-- `roll_right(v, points) = (v >> 1) | ((v & 1) << (points-1))` -/
+def rollRight (P v : Nat) : Nat := (v >>> 1) ||| ((v &&& 1) <<< (P - 1))
+
+/-- loop state of `map`: (current rotation, running minimum) -/
+def mapStep (P : Nat) (st : Nat × Nat) : Nat × Nat :=
+  let v := rollRight P st.1
+  (v, if v < st.2 then v else st.2)
+
+def iter {α : Type} (f : α → α) : Nat → α → α
+  | 0, x => x
+  | n + 1, x => iter f n (f x)
+
+/-- `map(v, points)`: minimum over `points` successive right-rotations (and `v` itself) -/
+def lbpMap (P v : Nat) : Nat := (iter (mapStep P) P (v, v)).2
+
+/-- histogram of `codes` with `n` bins (`fullhistogram`) -/
+def histogram (n : Nat) (codes : List Nat) : List Nat :=
+  (List.range n).map fun b => codes.count b
+
+/-- `lbp`'s compression: keep the bins of the pivots (`map c = c`) among all `2^P` codes -/
+def lbpCompress (P : Nat) (mapped : List Nat) : List Nat :=
+  ((List.range (2 ^ P)).filter fun c => lbpMap P c == c).map fun c => mapped.count c
+
+/-! ## SURF integral image (`_surf.cpp: integral<T>`) -/
+
+/-- one row of the in-place recurrence
+    `a(i,j) += a(i-1,j) + a(i,j-1) - a(i-1,j-1)`; `left = a(i,j-1)`, `diag = a(i-1,j-1)`,
+    `above = a(i-1, j..)`. Outside the image the terms are 0 (first row / column). -/
+def scanRow {α : Type} [Add α] [Sub α] : α → α → List α → List α → List α
+  | left, diag, a :: as, x :: xs =>
+    let v := x + ((a + left) - diag)
+    v :: scanRow v a as xs
+  | _, _, _, _ => []
+
+def integralAux {α : Type} [Add α] [Sub α] [OfNat α 0] : List α → List (List α) → List (List α)
+  | _, [] => []
+  | prev, row :: rest =>
+    let cur := scanRow 0 0 prev row
+    cur :: integralAux cur rest
+
+/-- the integral image of a list of rows of width `w` -/
+def integral {α : Type} [Add α] [Sub α] [OfNat α 0] (w : Nat) (rows : List (List α)) : List (List α) :=
+  integralAux (List.replicate w 0) rows
+
+/-- `Σ_{k ≤ n} g k` -/
+def sumTo {α : Type} [Add α] (g : Nat → α) : Nat → α
+  | 0 => g 0
+  | n + 1 => sumTo g n + g (n + 1)
+
+/-- **specification**: the two-dimensional prefix sum `Σ_{a ≤ i} Σ_{b ≤ j} f[a][b]` -/
+def prefix2 {α : Type} [Add α] [OfNat α 0] (rows : List (List α)) (i j : Nat) : α :=
+  sumTo (fun a => sumTo (fun b => (rows.getD a []).getD b 0) j) i
+
+/-- integer dtypes wrap modulo `2^bits` -/
+def wrapTo (bits : Nat) (signed : Bool) (v : Int) : Int :=
+  let m : Int := 2 ^ bits
+  let r := v % m
+  if signed && r ≥ m / 2 then r - m else r
+
+/-! ## moments -/
+
+def powN {α : Type} [Mul α] [OfNat α 1] (x : α) : Nat → α
+  | 0 => 1
+  | n + 1 => powN x n * x
+
+/-- `Σ_k xs[k] * w (start + k)` -/
+def dotFrom {α : Type} [Add α] [Mul α] [OfNat α 0] (w : Nat → α) : Nat → List α → α
+  | _, [] => 0
+  | k, x :: xs => x * w k + dotFrom w (k + 1) xs
+
+/-- model of `moments`: `np.dot(np.dot(img, (arange(c) - c1)**p1), (arange(r) - c0)**p0)` -/
+def moments {α : Type} [Add α] [Sub α] [Mul α] [OfNat α 0] [OfNat α 1] (cast : Nat → α)
+    (rows : List (List α)) (p0 p1 : Nat) (c0 c1 : α) : α :=
+  dotFrom (fun i => powN (cast i - c0) p0) 0
+    (rows.map fun r => dotFrom (fun j => powN (cast j - c1) p1) 0 r)
+
+/-- **specification**: the defining double sum `Σ_i Σ_j img[i][j] (i − c0)^p0 (j − c1)^p1` -/
+def momentsSpec {α : Type} [Add α] [Sub α] [Mul α] [OfNat α 0] [OfNat α 1] (cast : Nat → α)
+    (rows : List (List α)) (p0 p1 : Nat) (c0 c1 : α) : α :=
+  let rec rowsFrom : Nat → List (List α) → α
+    | _, [] => 0
+    | i, r :: rs =>
+      dotFrom (fun j => powN (cast i - c0) p0 * powN (cast j - c1) p1) 0 r + rowsFrom (i + 1) rs
+  rowsFrom 0 rows
+
+/-! ## driver -/
+
+def chunk {α : Type} (w : Nat) (xs : List α) : List (List α) :=
+  if w = 0 then [] else
+  let rec go : Nat → List α → List (List α)
+    | 0, _ => []
+    | fuel + 1, l => if l.isEmpty then [] else l.take w :: go fuel (l.drop w)
+  go xs.length xs
 
 def handle (a : Args) : String :=
   match a.str "kind" with
+  | "cooc" =>
+    let shape := a.nats "shape"
+    let im : Img Int := { shape := shape, data := (a.ints "data").toArray }
+    let m := a.nat "m"
+    let d := direction shape.length (a.nat "dir") (a.int "dist" 1)
+    let sym := a.nat "sym" == 1
+    let c := coocModel m im d
+    let c := if sym then symFold m c else c
+    let spec := if a.nat "spec" == 1 then showNats (coocSpecMat m im d sym) else "-"
+    s!"model={showNats c.toList} spec={spec} d={showInts d}"
+  | "haralick" =>
+    let shape := a.nats "shape"
+    let im : Img Int := { shape := shape, data := (a.ints "data").toArray }
+    let m := a.nat "m"
+    let ndirs := if shape.length == 2 then deltas2d.length else deltas3d.length
+    let rows := (List.range ndirs).map fun dir =>
+      let c := (symFold m (coocModel m im (direction shape.length dir (a.int "dist" 1)))).toList
+      let c := if a.nat "iz" == 1 then stripZeros m c else c
+      haralick13 m c
+    s!"feats={showFloats rows.flatten} ndirs={ndirs}"
+  | "lbpmap" =>
+    let P := a.nat "p"
+    let vs := if a.has "hi" then (List.range (a.nat "hi" - a.nat "lo")).map (· + a.nat "lo") else a.nats "codes"
+    s!"map={showNats (vs.map (lbpMap P))}"
+  | "lbphist" =>
+    let P := a.nat "p"
+    let mapped := (a.nats "codes").map (lbpMap P)
+    s!"hist={showNats (lbpCompress P mapped)}"
+  | "integral" =>
+    let w := a.nat "w"
+    let rows := chunk w (a.ints "data")
+    let out := (integral w rows).flatten
+    let spec := (List.range rows.length).flatMap fun i => (List.range w).map fun j => prefix2 rows i j
+    let bits := a.nat "bits"
+    let wr := fun (v : Int) => if bits == 0 then v else wrapTo bits (a.nat "signed" == 1) v
+    s!"model={showInts (out.map wr)} spec={showInts (spec.map wr)}"
+  | "integralf" =>
+    let w := a.nat "w"
+    let rows := chunk w (a.floats "data")
+    s!"model={showFloats (integral w rows).flatten}"
+  | "moments" =>
+    let w := a.nat "w"
+    let rows := chunk w (a.ints "data")
+    let p0 := a.nat "p0"; let p1 := a.nat "p1"
+    let c0 := a.int "c0"; let c1 := a.int "c1"
+    s!"model={moments (fun n => (n : Int)) rows p0 p1 c0 c1} spec={momentsSpec (fun n => (n : Int)) rows p0 p1 c0 c1}"
+  | "tables" =>
+    s!"d2={showInts deltas2d.flatten} d3={showInts deltas3d.flatten} fact={showNats factorialTable}"
   | k => s!"error=unknown-kind-{k}"
 
 end Mahotas.C19
